@@ -41,6 +41,7 @@ pub fn batches(check: &str) -> Vec<Batch> {
         "C03" => vec![
             b("all-kinds-structure", { let mut o = GenOpts::base(&all_kinds()).emph(Order, 8).emph(Gc, 8).emph(AddVars, 8).emph(Names, 6).emph(Dddmp, 6); o.allow_dddmp = true; o }, 3),
             b("tight", { let mut o = GenOpts::base(&all_kinds()).emph(Order, 6); o.tight_pct = 100; o }, 1),
+            b("numeric-terminals", { let mut o = GenOpts::base(&mt_kinds()).emph(Binary, 14).emph(Ite, 8).emph(Gc, 6).emph(Order, 6); o.allow_names = false; o }, 1),
         ],
         "C04" => vec![
             b("quant-subst", { let mut o = GenOpts::base(&[Kind::Bdd, Kind::Bcdd]).emph(Quant, 14).emph(Subst, 14).emph(Gc, 8).emph(Order, 8).emph(Pick, 0).emph(SatCount, 0); o.allow_names = false; o }, 3),
